@@ -591,3 +591,154 @@ def xrow_random(rng, count):
                f"rs={rng.randrange(0, 10 ** 8)} re={rng.randrange(0, 10 ** 8)} rev={rev} c100={c100} hit={hit} "
                f"ql={rng.randrange(1, 10 ** 6)} rl={rng.randrange(1, 10 ** 8)} rest={rng.randrange(2)} "
                f"P={','.join(f'{a}:{b}' for a, b in ps)}")
+
+
+# ------------------------------------------------------------------ CORR
+def corr_exhaustive(tier):
+    m = 6 if tier == "quick" else 7
+    for nr in range(1, m + 1):
+        for r in itertools.product("01", repeat=nr):
+            for nq in range(1, min(nr, 4) + 1):
+                for q in itertools.product("01", repeat=nq):
+                    yield f"CORR R={''.join(r)} Q={''.join(q)}"
+
+
+def corr_random(rng, count):
+    for _ in range(count):
+        nr = rng.randrange(1, 400)
+        dens = rng.choice([0.05, 0.2, 0.5])
+        r = "".join("1" if rng.random() < dens else "0" for _ in range(nr))
+        if rng.random() < 0.6 and nr > 3:
+            i = rng.randrange(0, nr - 2)
+            j = rng.randrange(i + 1, nr)
+            q = r[i:j]                      # an exact copy of a window
+            if rng.random() < 0.3:
+                q = q[::-1]
+        else:
+            q = "".join("1" if rng.random() < dens else "0" for _ in range(rng.randrange(1, nr + 1)))
+        yield f"CORR R={r} Q={q}"
+
+
+# ------------------------------------------------------------------ JOINROWS / RESOLVEROWS (rows built by the real aligner)
+def _tandem_reference(rng):
+    """reference with a tandem duplication of a block of labels"""
+    unit = [rng.randrange(2500, 12000) for _ in range(rng.randrange(4, 9))]
+    pre = rand_map(rng, rng.randrange(5, 15), 9000, 1500)
+    pos = list(pre)
+    x = pos[-1]
+    for _ in range(rng.randrange(2, 4)):
+        for g in unit:
+            x += g
+            pos.append(x)
+    post = rand_map(rng, rng.randrange(5, 15), 9000, 1500)
+    off = x + rng.randrange(3000, 12000) - post[0]
+    pos += [p + off for p in post]
+    return pos, sum(unit)
+
+
+def row_pairs_random(rng, count):
+    """yields (P, rowA, rowB, others) as real AlignmentResultRow objects: A = a first-pass candidate of a
+    query, B = a candidate of a fragment of the same query (second pass) on the same reference"""
+    import realops
+    import codec
+    made = 0
+    while made < count:
+        P = rand_params(rng)
+        if rng.random() < 0.6:
+            R, period = _tandem_reference(rng)
+        else:
+            R, period = make_reference(rng, rng.randrange(20, 60), 9000, 1500), rng.choice([20000, 40000])
+        Q, off, _ = make_query(rng, R, rng.random() < 0.7)
+        if len(Q) < 8:
+            continue
+        rev = rng.randrange(2)
+        Qs = mirror(Q) if rev else Q
+        al = realops.make_aligner(P, 1, 0)
+        ref = codec.OpticalMap(1, R[-1] + 1000, R)
+        full = codec.OpticalMap(7, Qs[-1] + 1, Qs)
+        k = rng.randrange(3, len(Qs) - 2)
+        if rng.random() < 0.5:
+            frag = codec.OpticalMap(7, Qs[-1] + 1, Qs[k:], k)
+        else:
+            frag = codec.OpticalMap(7, Qs[-1] + 1, Qs[:k], 0)
+        if rng.random() < 0.5:
+            # the fragment re-aligns the same query labels one repeat unit away: a join candidate that
+            # would list query labels twice
+            sgn = rng.choice([1, -1])
+            pa = [off + rng.randrange(-100, 100)]
+            pb = [off + sgn * period + rng.randrange(-100, 100)]
+            if rng.random() < 0.5:
+                frag = codec.OpticalMap(7, Qs[-1] + 1, Qs[max(0, k - 4):], max(0, k - 4)) if sgn > 0 else codec.OpticalMap(7, Qs[-1] + 1, Qs[:k + 4], 0)
+        else:
+            pa = [off + rng.choice([0, 0, period, -period]) + rng.randrange(-200, 200) for _ in range(rng.randrange(1, 3))]
+            pb = [off + rng.choice([0, period, -period, 2 * period]) + rng.randrange(-200, 200) for _ in range(rng.randrange(1, 3))]
+        try:
+            A = al.align(ref, full, [codec.Peak(p, 1.0) for p in pa], bool(rev))
+            B = al.align(ref, frag, [codec.Peak(p, 1.0) for p in pb], bool(rev)).setAlignedRest(True)
+        except Exception:
+            continue
+        if not A.alignedPairs or not B.alignedPairs:
+            continue
+        others = []
+        if rng.random() < 0.5:
+            Q2, off2, _ = make_query(rng, R, False)
+            C = al.align(ref, codec.OpticalMap(rng.choice([3, 9]), Q2[-1] + 1, Q2), [codec.Peak(off2, 1.0)], False)
+            if C.alignedPairs:
+                others.append(C)
+        yield P, A, B, others
+        made += 1
+
+
+def joinrows_random(rng, count):
+    import codec
+    for P, A, B, others in row_pairs_random(rng, count):
+        yield f"JOINROWS {pstr(P)} A={codec.show_row_t(A)} B={codec.show_row_t(B)}"
+
+
+def resolverows_random(rng, count):
+    import codec
+    for P, A, B, others in row_pairs_random(rng, count):
+        rows = [A] + [o for o in others if not o.alignedRest] + [B]
+        diff = rng.choice([0, 0, 1000, 20000, 100000, 100000])
+        yield f"RESOLVEROWS {pstr(P)} diff={diff} ROWS={'^'.join(codec.show_row_t(r) for r in rows)}"
+
+
+def _synthetic_row(peak, pairs, qid=7, rid=1, rev=0, rest=0, sp=1000, dp=1):
+    """protocol text of a one-segment row; pairs = [(rsite, rpos, qsite, qpos, shift)]"""
+    items = ",".join(f"P:{a}:{b}:{c}:{d}:{e}" for a, b, c, d, e in pairs)
+    conf = sum(sp - dp * abs(e) for *_, e in pairs)
+    by_r = sorted(pairs, key=lambda p: p[1])
+    first, last = by_r[0], by_r[-1]
+    qs, qe = (last[3], first[3]) if rev else (first[3], last[3])
+    return (f"q={qid}~r={rid}~ql=200001~rl=900001~qs={qs}~qe={qe}~rs={first[1]}~re={last[1]}~rev={rev}~conf={conf}~"
+            f"rest={rest}~SEG={peak}|{items}")
+
+
+def joinrows_synthetic(rng, count):
+    """two one-segment parts that place the same query labels at two reference loci, with scores that
+    put the optimal merge index strictly inside: the join of the parts would list a label twice"""
+    P = dict(DEFAULT_P)
+    for _ in range(count):
+        n = rng.randrange(2, 6)
+        rev = rng.randrange(2)
+        q0 = rng.randrange(1, 20)
+        step = rng.randrange(3000, 9000)
+        shiftq = rng.randrange(1, 3)            # the second part re-uses query labels shifted by this many
+        def qsite(j):
+            return (q0 + 40 - j) if rev else (q0 + j)
+        L, R = [], []
+        k = rng.randrange(1, n) if n > 1 else 0
+        for j in range(n):
+            big = 0 if j < k else rng.randrange(600, 1400)
+            L.append((10 + j, 100000 + j * step, qsite(j + shiftq), 10000 + (j + shiftq) * step, big))
+        for j in range(n):
+            big = rng.randrange(600, 1400) if j < k else 0
+            R.append((60 + j, 400000 + j * step, qsite(j), 10000 + j * step, big))
+        a = _synthetic_row(0, L, rev=rev)
+        b = _synthetic_row(300000, R, rev=rev, rest=1)
+        if rng.random() < 0.5:
+            yield f"JOINROWS {pstr(P)} A={a} B={b}"
+        else:
+            other = _synthetic_row(0, [(200, 700000, 1, 0, 0), (201, 705000, 2, 5000, 0)], qid=9)
+            diff = rng.choice([0, 1000, 100000, 1000000])
+            yield f"RESOLVEROWS {pstr(P)} diff={diff} ROWS={a}^{other}^{b}"
